@@ -243,7 +243,7 @@ theorem logged_locks_sub (cfg : Cfg) (b : Nat) (c : BCmd) (w : FWorld) (key : Na
   envRel_sub _ _ _ _ h
 
 theorem backendCmd_fail (cfg : Cfg) (b : Nat) (c : BCmd) (w : FWorld) (h : cfg.fails w.counter = true) :
-    backendCmd cfg b c w = (.err (.fault w.counter), logged cfg b c w) := by
+    backendCmd cfg b c w = (.err (.fault w.counter (cfg.kindAt w.counter)), logged cfg b c w) := by
   simp [backendCmd, logged, h]
 
 theorem backendCmd_ok (cfg : Cfg) (b : Nat) (c : BCmd) (w : FWorld) (h : cfg.fails w.counter = false) :
@@ -269,19 +269,46 @@ theorem gatherUnlock_snd (cfg : Cfg) (b lk : Nat) (rest : List Nat) (w : FWorld)
   obtain ⟨r, w1⟩ := p
   cases r <;> rfl
 
+/-- `_rollback` after one backend: it goes on with the rest, or — the backend's rollback ended with a BaseException and
+the loop is the OLD one (`except Exception` only, `rbAll = false`) — it is left there -/
 theorem rollbackList_snd (cfg : Cfg) (t : TxB) (rest : List TxB) (w : FWorld) :
-    (rollbackList cfg (t :: rest) w).2 = (rollbackList cfg rest (rollbackOne cfg t w).2).2 := by
+    (rollbackList cfg (t :: rest) w).2 = (rollbackList cfg rest (rollbackOne cfg t w).2).2 ∨
+    ((rollbackList cfg (t :: rest) w).2 = (rollbackOne cfg t w).2 ∧ cfg.rbAll = false ∧
+      ∃ e, (rollbackOne cfg t w).1 = .err e ∧ e.isBase = true) := by
   simp only [rollbackList]
   generalize rollbackOne cfg t w = p
   obtain ⟨r, w1⟩ := p
-  cases r <;> rfl
+  cases r with
+  | ok a => exact Or.inl rfl
+  | err e =>
+    simp only
+    cases hb : e.isBase with
+    | false =>
+      simp only [Bool.false_eq_true, if_false]
+      generalize rollbackList cfg rest w1 = q
+      obtain ⟨r2, w2⟩ := q
+      cases r2 <;> exact Or.inl rfl
+    | true =>
+      simp only [if_true]
+      cases hr : cfg.rbAll with
+      | true => exact Or.inl (by simp)
+      | false => exact Or.inr ⟨by simp, rfl, e, rfl, hb⟩
+
+/-- with the loop of /repo every backend is rolled back -/
+theorem rollbackList_snd_all (cfg : Cfg) (hall : cfg.rbAll = true) (t : TxB) (rest : List TxB) (w : FWorld) :
+    (rollbackList cfg (t :: rest) w).2 = (rollbackList cfg rest (rollbackOne cfg t w).2).2 := by
+  rcases rollbackList_snd cfg t rest w with h | ⟨_, h, _⟩
+  · exact h
+  · rw [hall] at h; cases h
 
 theorem txRollback_snd (cfg : Cfg) (ts : List TxB) (w : FWorld) :
     (txRollback cfg ts w).2 = (rollbackList cfg ts w).2 := by
   unfold txRollback
   generalize rollbackList cfg ts w = p
-  obtain ⟨e, w1⟩ := p
-  cases e <;> rfl
+  obtain ⟨r, w1⟩ := p
+  cases r with
+  | ok e => cases e <;> rfl
+  | err e => rfl
 
 /-- after a backend's commit the loop either goes on committing or rolls the rest back -/
 theorem commitLoop_snd (cfg : Cfg) (t : TxB) (rest : List TxB) (w : FWorld) :
@@ -292,6 +319,10 @@ theorem commitLoop_snd (cfg : Cfg) (t : TxB) (rest : List TxB) (w : FWorld) :
   obtain ⟨r, w1⟩ := p
   cases r
   · exact Or.inl rfl
-  · exact Or.inr rfl
+  · right
+    simp only
+    generalize rollbackList cfg rest w1 = q
+    obtain ⟨r2, w2⟩ := q
+    cases r2 <;> rfl
 
 end CashewsVerif.TxFault
